@@ -4,7 +4,7 @@
 // It hammers, from N goroutines each,
 //
 //	(i)   one SimpleDB handle: Get/Put/Delete plus a hook goroutine forcing rotations / flush waits / compaction cycles,
-//	(ii)  one SSTableReader (default index loader): Get / Contains / ScanRange / ScanStartingAt,
+//	(ii)  one SSTableReader (default index loader; a second one with EnableHashCheckOnReads): Get / Contains / ScanRange / ScanStartingAt,
 //	(iii) one recordio MMapReader: ReadNextAt / SeekNext,
 //
 // and compares EVERY result with the single-threaded answer computed beforehand:
@@ -319,6 +319,14 @@ func stressSst(dir string, seed uint64, workers int, dur time.Duration) error {
 		return err
 	}
 	defer rd.Close()
+	// a second handle on the same table with the documented non-default read option: values are hashed on every read
+	rdh, err := sstables.NewSSTableReader(sstables.ReadBasePath(path), sstables.ReadWithKeyComparator(skiplist.BytesComparator{}),
+		sstables.EnableHashCheckOnReads())
+	if err != nil {
+		return err
+	}
+	defer rdh.Close()
+	handles := []sstables.SSTableReaderI{rd, rdh}
 	pick := func() []byte {
 		if r.intn(3) == 0 { // absent key (odd number) or outside the range
 			return []byte(fmt.Sprintf("key-%06d", r.intn(2*nkeys+20)*2+1))
@@ -339,6 +347,9 @@ func stressSst(dir string, seed uint64, workers int, dur time.Duration) error {
 	qs = append(qs, sstQuery{kind: 2, lo: []byte("z"), hi: []byte("a")}) // rejected range
 	for i := range qs {
 		qs[i].want = sstAnswer(rd, qs[i])
+		if got := sstAnswer(rdh, qs[i]); got != qs[i].want { // single-threaded: both handles agree
+			report("MISMATCH", "sst", fmt.Sprintf("hash-check-on-reads handle differs single-threaded: want %.60s got %.60s", qs[i].want, got))
+		}
 	}
 	var ops int64
 	deadline := time.Now().Add(dur)
@@ -353,8 +364,9 @@ func stressSst(dir string, seed uint64, workers int, dur time.Duration) error {
 			for time.Now().Before(deadline) {
 				for k := 0; k < 32; k++ {
 					q := qs[rr.intn(len(qs))]
-					if got := sstAnswer(rd, q); got != q.want {
-						report("MISMATCH", "sst", fmt.Sprintf("kind=%d lo=%s hi=%s want %.60s got %.60s", q.kind, q.lo, q.hi, q.want, got))
+					hi := rr.intn(len(handles))
+					if got := sstAnswer(handles[hi], q); got != q.want {
+						report("MISMATCH", "sst", fmt.Sprintf("handle=%d kind=%d lo=%s hi=%s want %.60s got %.60s", hi, q.kind, q.lo, q.hi, q.want, got))
 					}
 					n++
 				}
@@ -547,7 +559,12 @@ func main() {
 	if *procs > 0 {
 		runtime.GOMAXPROCS(*procs)
 	}
-	dir, err := os.MkdirTemp("", "verif-racestress-")
+	// mostly on tmpfs (when there is one): fsync-bound runs exercise far fewer interleavings per second
+	base := ""
+	if st, e := os.Stat("/dev/shm"); e == nil && st.IsDir() && *seed%4 != 0 {
+		base = "/dev/shm"
+	}
+	dir, err := os.MkdirTemp(base, "verif-racestress-")
 	if err != nil {
 		fmt.Println("HARNESS", err)
 		os.Exit(4)
